@@ -18,6 +18,17 @@ from rules import shared, util, linelevel
 NAME = "keep-sorted"
 
 
+def work_view(ctx):
+    """`validate` with its own helpers looked through (a per-block `validate_block`, methods of a
+    direction enum, …) - except the comparator and the key extractors, which stay calls: the rules
+    about them anchor on the call sites."""
+    def keep(cb):
+        r = cb.local_ty(0)
+        return ctx.domain_api(cb) or r.startswith("std::result::Result<std::cmp::Ordering") \
+            or re.match(r"std::option::Option<\(&'?\w* ?str, std::ops::RangeInclusive<usize>\)>", r) is not None
+    return ctx.validate_body(NAME, inline=True, skip=keep, tag="c06", sugar=True)
+
+
 def comparator_fn(ctx, vb):
     """Crate-local callee returning Result<Ordering, _>."""
     for bi, t in vb.calls():
@@ -132,7 +143,7 @@ def check_regex_key(ctx, out, body, rule, labs, scope_blocks=None):
 def check_cmp_results(ctx, out, rule, vb=None):
     """Every ordering returned by the sort comparator is produced by the format's own comparison
     (str Ord::cmp for lexicographic, f64::total_cmp of the parsed numbers for numeric)."""
-    vb = vb or ctx.validate_body(NAME)
+    vb = vb or work_view(ctx)
     n = 0
     if vb is None:
         return 0
@@ -176,7 +187,7 @@ def check_cmp_results(ctx, out, rule, vb=None):
 
 
 def run(ctx, out, tier):
-    vb = ctx.validate_body(NAME)
+    vb = work_view(ctx)
     if vb is None:
         out.inst("C06.anchor", 0, 1)
         return meta()
